@@ -145,6 +145,18 @@ func isTestOrContractFile(e *Engine, fn *ssa.Function) bool {
 
 func (e *Engine) readonlyUnits(d EffectDirective, only func(string) bool) []*Unit {
 	mut := e.mutatorsUnder(d.Prefix)
+	if os.Getenv("GOVC_EFFDEBUG") != "" {
+		nb := 0
+		for _, f := range e.funcsUnder(d.Prefix) {
+			if len(f.Blocks) > 0 {
+				nb++
+			}
+			if strings.Contains(f.String(), "RemoveIf") || strings.Contains(f.String(), "AssertMutable") {
+				fmt.Fprintf(os.Stderr, "EFFDEBUG dep fn %s blocks=%d mut=%v\n", f.String(), len(f.Blocks), mut[f])
+			}
+		}
+		fmt.Fprintf(os.Stderr, "EFFDEBUG %d dependency functions with bodies, %d mutators\n", nb, len(mut))
+	}
 	var units []*Unit
 	for _, fn := range e.funcsUnder(d.PkgPath) {
 		if fnPkgPath(fn) != d.PkgPath || isTestOrContractFile(e, fn) {
@@ -210,6 +222,12 @@ func (e *Engine) posOf(p token.Pos) string {
 // mutatorsUnder: functions of the dependency that (transitively, through
 // static calls inside the dependency) call a method named AssertMutable.
 func (e *Engine) mutatorsUnder(prefix string) map[*ssa.Function]bool {
+	// the dependency's function bodies are needed here (loadEngine builds repository packages only)
+	for _, sp := range e.prog.AllPackages() {
+		if sp.Pkg != nil && strings.HasPrefix(sp.Pkg.Path(), prefix) {
+			sp.Build()
+		}
+	}
 	fns := e.funcsUnder(prefix)
 	mut := map[*ssa.Function]bool{}
 	calls := map[*ssa.Function][]*ssa.Function{}
